@@ -393,6 +393,8 @@ class Fam:
         self.zero = T(self, self.ring(0))
         self.one = T(self, self.ring(1))
         self._mono: dict = {}
+        self.log = None       # when a list: every data-dependent decision (what, deciding term, sign, where) is appended
+        self.where = ("", "")  # (file, qualified name) of the function whose statement is being interpreted
         self.work = 0
         self.t0 = _time.process_time()
         self._sqrt_cache: dict = {}
@@ -567,15 +569,7 @@ class Fam:
 
     def pval(self, p, k: int):
         """(value, sum of absolute values of the terms) of a polynomial at placement k, in floating point"""
-        vals = self.fvals[k]
-        s = sc = 0.0
-        for mm, c in self._terms(p):
-            t = c
-            for i, e in mm:
-                t *= vals[i] ** e
-            s += t
-            sc += abs(t)
-        return s, sc
+        return self._pval_vals(p, self.fvals[k])
 
     # ---- numeric values at the placements ---------------------------------------------------------
     def nums(self, t) -> list[float]:
@@ -626,7 +620,64 @@ class Fam:
         s = sg.pop()
         if s == 0:
             raise Undecided(f"[{self.name}]: cannot decide the sign of a non-zero term that vanishes at every placement ({what or repr(t)[:60]})")
+        if self.log is not None and not t.is_number:
+            self.log.append((what, t, s, self.where))
         return s
+
+    def record(self, what: str, t) -> None:
+        """log a decision that was taken numerically (argmax, isclose): `t` is a term whose sign decides it"""
+        if self.log is None or not isinstance(t, T) or t.is_number or t.p == 0:
+            return
+        vals = self.nums(t)
+        sg = {(0 if v == 0.0 else (1 if v > 0 else -1)) for v in vals}
+        if len(sg) == 1 and 0 not in sg:
+            self.log.append((what, t, sg.pop(), self.where))
+
+    def value_at(self, t, over: dict, k: int = 0):
+        """floating point value of a term at placement k with some base symbols overridden (norm symbols re-evaluated in creation
+        order); None if a radicand is not positive or a denominator vanishes there"""
+        vals = list(self.fvals[k])
+        for s_, v in over.items():
+            vals[self.symbols.index(s_)] = float(v)
+        for i in sorted(self.rad):
+            r, sc = self._pval_vals(self.rad[i], vals)
+            if not r > 1e-13 * sc:
+                return None
+            vals[i] = r ** 0.5
+        t = self.const(t)
+        v, sc = self._pval_vals(t.p, vals)
+        if abs(v) <= 1e-10 * sc:
+            v = 0.0
+        for key, e in t.den.items():
+            d, dsc = self._pval_vals(key, vals)
+            if abs(d) <= 1e-10 * dsc:
+                return None
+            v /= d ** e
+        return v
+
+    def _pval_vals(self, p, vals):
+        s = sc = 0.0
+        for mm, c in self._terms(p):
+            t = c
+            for i, e in mm:
+                t *= vals[i] ** e
+            s += t
+            sc += abs(t)
+        return s, sc
+
+    def mentions(self, t, syms) -> bool:
+        """does a term (numerator, denominator keys, radicands of its norm symbols) contain one of the base symbols?"""
+        idx = {self.symbols.index(s_) for s_ in syms if s_ in self.symbols}
+        seen: set = set()
+
+        def poly_has(p):
+            for m in p.keys():
+                for i, e in enumerate(m):
+                    if e and (i in idx or (i in self.rad and i not in seen and (seen.add(i) or poly_has(self.rad[i])))):
+                        return True
+            return False
+        t = self.const(t)
+        return poly_has(t.p) or any(poly_has(k) for k in t.den)
 
     def iszero(self, t):
         """True: identically zero (proved); False: non-zero at a placement (refuted); Undecided otherwise"""
@@ -1079,6 +1130,24 @@ class World:
             self._imports[rel] = im
         return im
 
+    def module_constant(self, rel: str, name: str):
+        hits = []
+        for st in self.repo.module(rel).tree.body:
+            if isinstance(st, ast.Assign) and len(st.targets) == 1 and isinstance(st.targets[0], ast.Name) and st.targets[0].id == name:
+                hits.append(st.value)
+            elif isinstance(st, ast.AnnAssign) and isinstance(st.target, ast.Name) and st.target.id == name and st.value is not None:
+                hits.append(st.value)
+        return hits[0] if len(hits) == 1 else None
+
+    def class_constant(self, rel: str, cls: str, name: str):
+        hits = []
+        for st in self.repo.module(rel).cls(cls).body:
+            if isinstance(st, ast.Assign) and len(st.targets) == 1 and isinstance(st.targets[0], ast.Name) and st.targets[0].id == name:
+                hits.append(st.value)
+            elif isinstance(st, ast.AnnAssign) and isinstance(st.target, ast.Name) and st.target.id == name and st.value is not None:
+                hits.append(st.value)
+        return hits[0] if len(hits) == 1 else None
+
     def porepy_function(self, path: str):
         """resolve porepy.<...>.<module>.<function> to (rel, FunctionDef) by the module's file name (must be unique)"""
         parts = path.split(".")
@@ -1110,6 +1179,7 @@ class Ev:
         return Undecided(f"{self.modrel}:{self.qual}:{ln}: {msg}")
 
     def tick(self, node):
+        self.fam.where = (self.modrel, self.qual)
         self.w.steps += 1
         if self.w.steps > MAX_STEPS:
             raise self.und("step budget of the evaluator exhausted", node)
@@ -1130,6 +1200,7 @@ class Ev:
 
     def exec(self, st: ast.stmt):
         self.tick(st)
+        self.fam.where = (self.modrel, self.qual)
         if isinstance(st, ast.Expr):
             if isinstance(st.value, ast.Constant):
                 return
@@ -1404,6 +1475,10 @@ class Ev:
         node = self.w.repo.module(self.modrel).get(e.id)
         if isinstance(node, ast.FunctionDef):
             return Closure(node, None, self.modrel, e.id)
+        const = self.w.module_constant(self.modrel, e.id)
+        if const is not None:
+            # module-level constant: `NAME = <expression>` assigned exactly once at module level
+            return Ev(self.w, Scope(), self.modrel, f"<module>.{e.id}", self.depth + 1).ev(const)
         if e.id in ("range", "len", "int", "float", "bool", "abs", "sum", "max", "min", "enumerate", "zip", "hasattr", "isinstance",
                     "tuple", "list", "round", "print", "any", "all", "reversed", "sorted", "str"):
             return ModRef("builtins." + e.id)
@@ -1421,7 +1496,17 @@ class Ev:
                 return base.attrs[a]
             m = self._method(a)
             if m is not None:
+                decos = {u(d).split(".")[-1] for d in m.decorator_list}
+                if "staticmethod" in decos:
+                    return Closure(m, None, GRID, f"Grid.{a}")
+                if "property" in decos or "cached_property" in decos:
+                    return self.apply(Closure(m, None, GRID, f"Grid.{a}", selfval=base), [], {}, e)
+                if decos - {"override", "final"}:
+                    raise self.und(f"decorated method `{a}` ({sorted(decos)})", e)
                 return Closure(m, None, GRID, f"Grid.{a}", selfval=base)
+            cconst = self.w.class_constant(GRID, "Grid", a)
+            if cconst is not None:
+                return Ev(self.w, Scope(), GRID, f"Grid.{a}", self.depth + 1).ev(cconst)
             raise self.und(f"grid attribute `{a}` is not part of the instance", e)
         if isinstance(base, SpM):
             if a in ("indices", "indptr") and base.fmt in ("csc", "csr"):
@@ -1695,12 +1780,15 @@ class Ev:
                 raise self.und(f"**kwargs in `{u(e)[:50]}`", e)
             kw[k.arg] = self.ev(k.value)
         try:
-            if isinstance(f, Closure):
-                return self.apply(f, args, kw, e)
-            if isinstance(f, _Bound):
-                return self.method(f.base, f.name, args, kw, e)
-            if isinstance(f, ModRef):
-                return self.library(f.path, args, kw, e)
+            try:
+                if isinstance(f, Closure):
+                    return self.apply(f, args, kw, e)
+                if isinstance(f, _Bound):
+                    return self.method(f.base, f.name, args, kw, e)
+                if isinstance(f, ModRef):
+                    return self.library(f.path, args, kw, e)
+            finally:
+                self.fam.where = (self.modrel, self.qual)
         except ShapeFault as sf:
             if sf.node is None:
                 sf.node = e
@@ -2382,7 +2470,7 @@ class Ev:
         for k in range(len(self.fam.place)):
             vals = [sgn * c[k] for c in cols]
             best = max(range(len(vals)), key=lambda i: (vals[i], -i))
-            near = [i for i in range(len(vals)) if i != best and abs(vals[i] - vals[best]) <= 1e-9 * max(1.0, abs(vals[best]))]
+            near = [i for i in range(len(vals)) if i != best and abs(vals[i] - vals[best]) <= 1e-9 * max(abs(v_) for v_ in vals)]
             if near:
                 # ties: numpy takes the first; a symbolic tie must be an identity
                 first = min([best] + near)
@@ -2393,7 +2481,15 @@ class Ev:
             picks.add(best)
         if len(picks) != 1:
             raise self.und("argmax/argmin/max/min falls differently on the placements", node)
-        return picks.pop()
+        w = picks.pop()
+        if self.fam.log is not None:
+            for i in range(len(vec)):
+                if i != w:
+                    try:
+                        self.fam.record(f"{'argmax' if sgn > 0 else 'argmin'} in `{u(node)[:50]}`", (vec[w] - vec[i]) * sgn)
+                    except (Undecided, _IsNaN, TypeError):
+                        pass
+        return w
 
     def _extreme(self, a, axis, node, sgn, arg=False):
         if is_conc(a):
@@ -2508,6 +2604,13 @@ class Ev:
             if len(res) != 1:
                 raise self.und("np.isclose falls differently on the placements", node)
             out[ix] = res.pop()
+            if self.fam.log is not None:
+                try:
+                    bnd = AT[ix] + RT[ix] * (B[ix] * self.fam.sign(B[ix], "isclose") if not self.fam.iszero(B[ix]) else 0)
+                    dif = A[ix] - B[ix]
+                    self.fam.record(f"isclose in `{u(node)[:50]}`", bnd * bnd - dif * dif)
+                except (Undecided, _IsNaN, TypeError):
+                    pass
         return out if shp else bool(out[()])
 
     def np_allclose(self, a, b, rtol=None, atol=None, node=None, **kw):
@@ -2625,10 +2728,21 @@ class Instance:
                      num_cells=nc, history=[], name="instance")
         return GridObj(attrs)
 
+    remake = None
+
+    def scaled(self, factor) -> "Instance":
+        """a fresh copy of the instance (own family) whose node coordinates are multiplied by a concrete rational factor"""
+        inst = self.remake(scale=False)
+        inst.nodes = inst.nodes * sp.Rational(factor)
+        inst.name = f"{self.name} scaled by {factor}"
+        return inst
+
     def single(self) -> "Instance":
         """the same instance with the first placement only (every data-dependent decision is then taken as it falls there)"""
         fam = Fam(self.fam.name, self.fam.symbols, self.fam.place[:1])
-        return Instance(self.name, self.dim, fam, self.nodes, self.face_loops, self.cells, self.cell_signs, self.note)
+        inst = Instance(self.name, self.dim, fam, self.nodes, self.face_loops, self.cells, self.cell_signs, self.note)
+        inst.remake = self.remake
+        return inst
 
     def half_faces(self):
         for c, (fs, ss) in enumerate(zip(self.cells, self.cell_signs)):
@@ -2656,14 +2770,19 @@ _TAU_BASE = ["3/2", "-7/4", "5/3"]
 _TAU_DELTAS = [["1/6", "1/7", "-1/5"], ["-1/8", "1/9", "1/4"]]
 
 
-def _with_tau(syms, base, deltas, tau: bool):
-    """optionally append the translation symbols (used by C20) to a family"""
-    if not tau:
-        return syms, base, deltas
-    return syms + list(TAU), base + _TAU_BASE, [d + t for d, t in zip(deltas, _TAU_DELTAS)]
+SCALE = sp.Symbol("scale", real=True)
 
 
-def line_instance(tau: bool = False, vertical: bool = False) -> Instance:
+def _with_tau(syms, base, deltas, tau: bool, scale: bool = False):
+    """optionally append the translation symbols (used by C20) and the scaling symbol (scale covariance of decisions) to a family"""
+    if tau:
+        syms, base, deltas = syms + list(TAU), base + _TAU_BASE, [d + t for d, t in zip(deltas, _TAU_DELTAS)]
+    if scale:
+        syms, base, deltas = syms + [SCALE], base + ["5/4"], [d + [x] for d, x in zip(deltas, ["1/8", "-3/16"])]
+    return syms, base, deltas
+
+
+def line_instance(tau: bool = False, vertical: bool = False, scale: bool = False) -> Instance:
     """four nodes on a general line of 3-space (or on a line parallel to the z-axis), numbered out of order; three cells"""
     o = sp.symbols("o0:3", real=True)
     t = sp.symbols("t0:3", real=True)
@@ -2676,22 +2795,25 @@ def line_instance(tau: bool = False, vertical: bool = False) -> Instance:
     base = ["1/3", "-2/5", "1/2", "2/3", "-1/2", "3/4", "-1/4", "3/5", "1/2", "4/3"]
     deltas = [["1/7", "1/9", "-1/8", "1/10", "1/11", "-1/12", "1/5", "1/13", "-1/6", "1/9"],
               ["-1/9", "1/5", "1/6", "-1/7", "1/10", "1/9", "-1/3", "-1/11", "1/7", "1/5"]]
-    syms, base, deltas = _with_tau(syms, base, deltas, tau)
+    syms, base, deltas = _with_tau(syms, base, deltas, tau, scale)
     fam = Fam("line_vertical" if vertical else "line", syms, _placements(syms, base, deltas))
     loops = [[0], [1], [2], [3]]
     cells = [[0, 2], [2, 3], [1, 3]]
     # the face between the 2nd and the 3rd cell has its normal against the line direction (mixed sign pattern: the flip logic must act
     # on some faces and not on others)
     signs = [[-1, 1], [-1, -1], [1, 1]]
-    return Instance("line-vertical" if vertical else "line", 1, fam, nodes, loops, cells, signs,
+    inst = Instance("line-vertical" if vertical else "line", 1, fam, nodes, loops, cells, signs,
                     "cells (n0,n2), (n2,n3), (n3,n1) on the line o + s*t" + (" with t parallel to the z-axis" if vertical else ""))
+    inst.remake = lambda **kw: line_instance(**{**dict(tau=tau, vertical=vertical, scale=scale), **kw})
+    return inst
 
 
 def _plane_nodes(ab, o, p, q):
     return _arr([[a for a, b in ab], [b for a, b in ab], [o + p * a + q * b for a, b in ab]])
 
 
-def plane_instance(oriented: bool = True, mirrored: bool = False, patchy: bool = False, tau: bool = False, vertical: bool = False) -> Instance:
+def plane_instance(oriented: bool = True, mirrored: bool = False, patchy: bool = False, tau: bool = False, vertical: bool = False,
+                   scale: bool = False, concave: bool = False) -> Instance:
     """a convex quadrilateral and a triangle sharing an edge, in the plane z = o + p x + q y; `patchy` adds a disconnected triangle
     whose node loop runs the other way round (locally consistent, globally not: orientation check 3/3 of the 2-d kernel)"""
     nn = 8 if patchy else 5
@@ -2705,6 +2827,9 @@ def plane_instance(oriented: bool = True, mirrored: bool = False, patchy: bool =
         nodes = _arr([[o for _ in a], list(a), list(b)])
     basea = ["0", "2", "11/5", "-1/10", "7/2"] + (["5", "6", "11/2"] if patchy else [])
     baseb = ["0", "1/10", "3/2", "6/5", "3/5"] + (["0", "1/5", "1"] if patchy else [])
+    if concave:
+        # boomerang n0-n1-n2-n3 with the reflex corner n3 close to the tip n1: the mean of the face centres lies OUTSIDE the cell
+        basea, baseb = ["0", "2", "0", "8/5", "11/5"], ["0", "1", "2", "1", "11/5"]
     if mirrored:
         basea = [("-" + v).replace("--", "") for v in basea]
     base = basea + baseb + ["1/2", "2/3", "-3/4"]
@@ -2714,8 +2839,8 @@ def plane_instance(oriented: bool = True, mirrored: bool = False, patchy: bool =
     db2 = ["-1/18", "1/14", "1/20", "-1/13", "-1/17", "1/19", "-1/22", "1/16"][:nn]
     deltas = [da + db + ["1/9", "-1/7", "1/8"], da2 + db2 + ["-1/5", "1/6", "1/9"]]
     name = "plane" + ("" if oriented else "-unoriented") + ("-mirrored" if mirrored else "") + ("-patchy" if patchy else "") \
-        + ("-vertical" if vertical else "")
-    syms, base, deltas = _with_tau(syms, base, deltas, tau)
+        + ("-vertical" if vertical else "") + ("-concave" if concave else "")
+    syms, base, deltas = _with_tau(syms, base, deltas, tau, scale)
     fam = Fam(name.replace("-", "_"), syms, _placements(syms, base, deltas))
     loops = [[0, 1], [1, 2], [2, 3], [3, 0], [1, 4], [4, 2]]
     cells = [[0, 1, 2, 3], [1, 4, 5]]
@@ -2730,7 +2855,10 @@ def plane_instance(oriented: bool = True, mirrored: bool = False, patchy: bool =
         cells += [[6, 7, 8]]
         signs += [[1, 1, 1]]
         note += "; plus a disconnected triangle (n5,n6,n7) whose loop runs clockwise"
-    return Instance(name, 2, fam, nodes, loops, cells, signs, note)
+    inst = Instance(name, 2, fam, nodes, loops, cells, signs, note)
+    inst.remake = lambda **kw: plane_instance(**{**dict(oriented=oriented, mirrored=mirrored, patchy=patchy, tau=tau, vertical=vertical,
+                                                        scale=scale, concave=concave), **kw})
+    return inst
 
 
 def _right_hand_sign(pts, loop, cell_nodes) -> int:
@@ -2743,7 +2871,7 @@ def _right_hand_sign(pts, loop, cell_nodes) -> int:
     return 1 if float(np.dot(c - cc, nrm)) > 0 else -1
 
 
-def solid_instance(tau: bool = False) -> Instance:
+def solid_instance(tau: bool = False, scale: bool = False) -> Instance:
     """a pyramid over a planar quadrilateral in z = 0 (two of its corners symbolic) with a symbolic apex, and a tetrahedron with a
     symbolic fourth node glued to one of its triangular faces"""
     x4, y4, z4, x5, y5, z5, a2, b2, a3, b3 = sp.symbols("x4 y4 z4 x5 y5 z5 a2 b2 a3 b3", real=True)
@@ -2753,14 +2881,16 @@ def solid_instance(tau: bool = False) -> Instance:
     base = ["1", "7/10", "9/5", "17/5", "9/10", "7/10", "11/5", "3/2", "-1/10", "6/5"]
     deltas = [["1/9", "-1/7", "1/8", "1/11", "1/13", "-1/9", "1/12", "1/18", "-1/14", "1/16"],
               ["-1/5", "1/6", "1/9", "-1/10", "-1/12", "1/7", "-1/16", "1/15", "1/12", "-1/18"]]
-    syms, base, deltas = _with_tau(syms, base, deltas, tau)
+    syms, base, deltas = _with_tau(syms, base, deltas, tau, scale)
     fam = Fam("solid", syms, _placements(syms, base, deltas))
     loops = [[0, 1, 2, 3], [0, 1, 4], [1, 2, 4], [2, 3, 4], [3, 0, 4], [1, 5, 2], [2, 5, 4], [4, 5, 1]]
     cells = [[0, 1, 2, 3, 4], [2, 5, 6, 7]]
     cnodes = [[0, 1, 2, 3, 4], [1, 2, 4, 5]]
     pts = np.array([[sp.sympify(v).xreplace(fam.place[0]) for v in row] for row in nodes], dtype=object)
     signs = [[_right_hand_sign(pts, loops[f], cn) for f in fs] for fs, cn in zip(cells, cnodes)]
-    return Instance("solid", 3, fam, nodes, loops, cells, signs, "pyramid (n0..n3; n4) and tetrahedron (n1,n2,n4,n5)")
+    inst = Instance("solid", 3, fam, nodes, loops, cells, signs, "pyramid (n0..n3; n4) and tetrahedron (n1,n2,n4,n5)")
+    inst.remake = lambda **kw: solid_instance(**{**dict(tau=tau, scale=scale), **kw})
+    return inst
 
 
 # ======================================================================================================
@@ -2774,9 +2904,17 @@ class Outcome:
         self.fault = None          # KernelRaises | ShapeFault
 
 
-def run_kernel(repo, inst: Instance, entry: str = "compute_geometry", nodes=None) -> Outcome:
+def run_kernel(repo, inst: Instance, entry: str = "compute_geometry", nodes=None, log=None) -> Outcome:
     out = Outcome(inst)
     inst.fam.restart_budget()
+    inst.fam.log = log
+    try:
+        return _run_kernel(repo, inst, entry, nodes, out)
+    finally:
+        inst.fam.log = None
+
+
+def _run_kernel(repo, inst: Instance, entry, nodes, out) -> Outcome:
     g = inst.grid()
     if nodes is not None:
         g.attrs["nodes"] = nodes
@@ -2946,10 +3084,157 @@ def check_instance(ctx: Ctx, inst: Instance, out: Outcome, fn_node, prefix: str 
 
 
 def instances(tier: str) -> list[Instance]:
-    out = [line_instance(), plane_instance(), plane_instance(oriented=False), plane_instance(patchy=True), solid_instance()]
+    out = [line_instance(scale=True), plane_instance(scale=True), plane_instance(oriented=False, scale=True), plane_instance(patchy=True, scale=True),
+           solid_instance(scale=True)]
     if tier == "thorough":
-        out += [plane_instance(mirrored=True)]
+        out += [plane_instance(mirrored=True, scale=True)]
     return out
+
+
+# ======================================================================================================
+#  R7: data-dependent decisions must be covariant under a change of the length unit
+# ======================================================================================================
+
+def paired_decisions(log_a: list, log_b: list):
+    """pairs the decisions of two evaluations of the same code on the same path: same description, same rank among the decisions of
+    that description; descriptions whose counts differ are left out (returned separately)"""
+    ga, gb = {}, {}
+    for what, t, sg, _w in log_a:
+        ga.setdefault(what, []).append((t, sg))
+    for what, t, sg, _w in log_b:
+        gb.setdefault(what, []).append((t, sg))
+    pairs, unmatched = [], []
+    for what, la in ga.items():
+        lb = gb.get(what, [])
+        if len(la) != len(lb):
+            unmatched.append(what)
+            continue
+        pairs += [(what, a, b) for a, b in zip(la, lb)]
+    return pairs, unmatched
+
+
+def decision_kind(what: str) -> str:
+    for k in ("isclose", "argmax", "argmin", "np.sign", "np.abs", "abs", "conversion to bool"):
+        if what.startswith(k):
+            return k
+    if "square root" in what or what == "radicand":
+        return "sign of a factor of a square root"
+    return "comparison"
+
+
+def _rescaled(fam: Fam, t, sym, factor: int):
+    """the term with the base symbol `sym` replaced by factor * sym (norm symbols are left alone: the caller makes sure their radicands
+    do not contain the symbol)"""
+    gi = fam.symbols.index(sym)
+
+    def poly(p):
+        return p.ring.from_terms([(m, c * factor ** m[gi]) for m, c in p.terms()])
+    t = fam.const(t)
+    res = T(fam, poly(t.p))
+    for k, e in t.den.items():
+        res = res / T(fam, poly(k)) ** e
+    return res
+
+
+def _homogeneous(fam: Fam, ts) -> bool:
+    """ts(2 s) == 2**k * ts(s) for an integer k, i.e. the term is homogeneous in the scale symbol"""
+    import math
+    if not fam.mentions(ts, [SCALE]):
+        return True
+    gi = fam.symbols.index(SCALE)
+    t = fam.const(ts)
+    used = set(t.ls) | {i for k in t.den for i in fam.lset(k)}
+    if any(any(m[gi] for m in fam.rad[i].keys()) for i in used):
+        return False          # a square root that still contains the scale: not of the form s**k * (scale-free)
+    t2 = _rescaled(fam, t, SCALE, 2)
+    v1, v2 = fam.nums(t)[0], fam.nums(t2)[0]
+    if v1 == 0.0 or v2 == 0.0 or v2 / v1 <= 0:
+        return False
+    k = math.log2(v2 / v1)
+    if abs(k - round(k)) > 1e-6 or abs(round(k)) > 16:
+        return False
+    try:
+        return fam.iszero(t2 - t * sp.Integer(2) ** int(round(k))) is True
+    except Undecided:
+        return True       # vanishes at every placement: nothing to exhibit
+
+
+DECADES = [10.0 ** -k for k in range(1, 10)] + [10.0 ** k for k in range(1, 10)]
+
+
+def scale_clause(ctx: Ctx, inst: Instance, log_base: list, fn) -> None:
+    """R7: evaluate the kernel on s * X with a symbolic s > 0; every decision term must be homogeneous in s.  For a decision that is
+    not, look for a decade s* at which it falls the other way and run the identities R1-R6 on the grid scaled by s* (and by the next
+    decade): only a failure THERE is a finding."""
+    fam = inst.fam
+    q = KERNEL[inst.dim]
+    s_t = fam.from_expr(SCALE)
+    X = inst.grid().attrs["nodes"]
+    log_s: list = []
+    out = run_kernel(ctx.repo, inst, nodes=X * s_t, log=log_s)
+    tag = f"[{inst.name}]"
+    if out.fault is not None:
+        raise Undecided(f"[{inst.name}]: the symbolically scaled grid is not processed ({out.fault.what})")
+    suspects = []
+    for what, ts, ss, where in log_s:
+        if _homogeneous(fam, ts):
+            continue
+        if len(suspects) > 60:
+            break
+        flips = []
+        for sv in DECADES:
+            v = fam.value_at(ts, {SCALE: sv})
+            if v is not None and v != 0.0 and (v > 0) != (ss > 0):
+                flips.append(sv)
+        suspects.append((what, flips, where))
+    tried, failures = set(), []
+    for what, flips, where in suspects:
+        small = sorted([f for f in flips if f < 1], reverse=True)[:1]
+        large = sorted([f for f in flips if f > 1])[:1]
+        cands = [c for f in small for c in (f, f / 10)] + [c for f in large for c in (f, f * 10)]
+        for sv in cands:
+            key = sp.nsimplify(sv, rational=True)
+            if key in tried or len(tried) >= 6:
+                continue
+            tried.add(key)
+            inst2 = inst.scaled(key)
+            scratch = Ctx(ctx.prop, ctx.repo, ctx.tier)
+            try:
+                try:
+                    check_instance(scratch, inst2, run_kernel(ctx.repo, inst2), fn)
+                except Undecided as e:
+                    if "differently on the placements" not in str(e):
+                        raise
+                    inst2 = inst2.single()
+                    scratch = Ctx(ctx.prop, ctx.repo, ctx.tier)
+                    check_instance(scratch, inst2, run_kernel(ctx.repo, inst2), fn)
+            except Undecided as e:
+                ctx.note(f"{tag} scale covariance: the grid scaled by {key} could not be decided ({str(e)[:120]})")
+                continue
+            if scratch.findings:
+                failures.append((what, key, scratch.findings, where))
+    noted = set()
+    for what, flips, where in suspects:
+        if not any(w == what for w, _, _, _ in failures) and what not in noted:
+            noted.add(what)
+            ctx.note(f"{tag} the decision `{what}` is not homogeneous under a change of the length unit"
+                     + (f" (it falls the other way for the scale factor {flips[0]:g})" if flips else " (no decade between 1e-9 and 1e9 makes it fall the other way)")
+                     + "; no identity fails on the scaled instances that were examined")
+    if not failures:
+        ctx.check("R7", True, GRID, q, fn, f"instance {inst.name}: every data-dependent decision taken on the way is homogeneous under X -> s X, or the "
+                  f"identities R1-R6 still hold on the grid scaled to where it falls the other way ({len(log_s)} decisions, {len(suspects)} inhomogeneous)",
+                  construct=f"{tag} decisions covariant under scaling")
+        return
+    seen = set()
+    for what, key, fnds, where in failures:
+        cons = f"{tag} scale: {decision_kind(what)} in {where[1]}"
+        if cons in seen:
+            continue
+        seen.add(cons)
+        f0 = fnds[0]
+        ctx.check("R7", False, where[0] or GRID, where[1] or q, fn, f"the decision `{what}` compares quantities of different physical dimension: on the valid grid "
+                  f"'{inst.name}' ({inst.note}) scaled by the factor {key} it falls the other way and the geometry is wrong: [{f0.rule}] {f0.message[:300]}",
+                  construct=cons, facts={"scale": str(key), "decision": what, "failed": [f"{f.rule} {f.construct}" for f in fnds[:6]]})
 
 
 def run(ctx: Ctx) -> None:
@@ -2964,8 +3249,9 @@ def run(ctx: Ctx) -> None:
     for inst in instances(ctx.tier):
         fn = ms.get(KERNEL[inst.dim].split(".")[1]) or ms["compute_geometry"]
         try:
+            log: list = []
             try:
-                out = run_kernel(ctx.repo, inst)
+                out = run_kernel(ctx.repo, inst, log=log)
                 check_instance(ctx, inst, out, fn)
             except Undecided as e:
                 if "differently on the placements" not in str(e):
@@ -2975,8 +3261,19 @@ def run(ctx: Ctx) -> None:
                 n0 = len(ctx.obligations)
                 inst = inst.single()
                 del ctx.obligations[n0:]
-                out = run_kernel(ctx.repo, inst)
+                log = []
+                out = run_kernel(ctx.repo, inst, log=log)
                 check_instance(ctx, inst, out, fn)
+            if out.fault is None:
+                try:
+                    scale_clause(ctx, inst, log, fn)
+                except Undecided as e:
+                    if "differently on the placements" not in str(e):
+                        raise
+                    inst1 = inst.single()
+                    log1: list = []
+                    run_kernel(ctx.repo, inst1, log=log1)
+                    scale_clause(ctx, inst1, log1, fn)
         except Undecided as e:
             # an instance the analysis cannot decide never yields a verdict; findings on OTHER instances stand (each carries its own
             # witness placement), but without any finding the run as a whole is undecided
